@@ -166,7 +166,7 @@ def run_case(case, env):
     elif kind == 'chunks':
         shape = tuple(case['shape'])
         n = shape[0]
-        a, vals = _array(env, shape, 'int16' if len(shape) == 1 else 'float64')
+        a, vals = _array(env, shape, ('int16' if shape[0] % 2 else '>i4') if len(shape) == 1 else ('float64' if shape[0] % 2 else '>f4'))
         import mmap
         for c in range(1, n + 3):
             for s in [None] + list(range(1, n + 3)):
@@ -177,8 +177,16 @@ def run_case(case, env):
                         ee = n if e is None else e
                         exp = frames(bb, ee, c, c if s is None else s, rem)
                         try:
-                            got = list(a.iterchunks(c, stepsize=s, startindex=b,
-                                                    endindex=e, include_remainder=rem))
+                            # consume step by step and scribble over every chunk after taking a private copy:
+                            # chunks are detached copies, so this must influence neither later chunks nor the array
+                            got = []
+                            for ch in a.iterchunks(c, stepsize=s, startindex=b, endindex=e, include_remainder=rem):
+                                got.append(np.array(ch, copy=True))
+                                if ch.dtype != vals.dtype:
+                                    got[-1] = ch          # keep the offending dtype visible to the comparison below
+                                if ch.size and ch.flags.writeable:
+                                    ch[...] = 0
+                                    res.count('mon.chunk_scribbled')
                         except Exception as ex:
                             res.fail('iterchunks-raised-on-valid',
                                      f'iterchunks(shape={shape}, c={c}, s={s}, b={b}, e={e}, rem={rem}) raised {ex!r}',
@@ -214,7 +222,7 @@ def run_case(case, env):
                                 break
                         if (s is None or s == c) and rem and got:
                             res.count('mon.concat_law')
-                            cat = np.concatenate(got, axis=0)
+                            cat = np.concatenate(got, axis=0).astype(vals.dtype)   # concatenate returns native byte order
                             if cat.tobytes() != vals[bb:ee].tobytes():
                                 res.fail('iterchunks-concatenation-law',
                                          f'chunks with step=chunklen={c} do not concatenate to a[{bb}:{ee}]',
